@@ -2,8 +2,8 @@ package rules
 
 import (
 	"fmt"
-	"morlockverif/checker/internal/core"
 	"go/types"
+	"morlockverif/checker/internal/core"
 	"sort"
 	"strings"
 
